@@ -114,6 +114,11 @@ class DstScenario:
         o = self.rig.sm(None)
         return self._done(o, ("TICK", dt))
 
+    def tick0(self):
+        """state-machine call without packet and without the clock advancing"""
+        o = self.rig.sm(None)
+        return self._done(o, ("TICK", 0))
+
     def cancel(self, tid=None):
         o = self.rig.cancel(self.tid if tid is None else tid)
         return self._done(o, ("CANCEL", "own" if tid is None else "other"))
